@@ -87,14 +87,20 @@ deriving Repr, DecidableEq
 /-- `NewLinkBuffer(size)` -/
 def newLB (cfg : Cfg) (size : Nat) : LB α := { nodes := [newNode cfg size] }
 
-/-- `recalLen(-n)` for `n > 0`: a non-empty peek cache is stale now; its block is retired to
-`b.caches` (freed by Release) and `cachePeek` becomes nil. -/
-def LB.consumeLen (b : LB α) (n : Nat) : LB α :=
+/-- does `recalLen(-n)` find a non-empty peek cache (which is stale then)? -/
+def LB.cacheStale (b : LB α) (n : Nat) : Bool :=
   match b.cachePeek with
-  | some (c, _) =>
-    if n > 0 ∧ c.length > 0 then { b with length := b.length - n, caches := b.caches + 1, cachePeek := none }
-    else { b with length := b.length - n }
-  | none => { b with length := b.length - n }
+  | some (c, _) => decide (n > 0 ∧ c.length > 0)
+  | none => false
+
+/-- `recalLen(-n)` for `n > 0`: a non-empty peek cache is stale now; its block is retired to
+`b.caches` (freed by Release) and `cachePeek` becomes nil.  (Written as one record update so that
+the untouched fields reduce by `rfl` in proofs.) -/
+def LB.consumeLen (b : LB α) (n : Nat) : LB α :=
+  { b with
+    length := b.length - n
+    caches := if b.cacheStale n then b.caches + 1 else b.caches
+    cachePeek := if b.cacheStale n then none else b.cachePeek }
 
 /-- `for l == 0 && b.read != b.flush { b.read = b.read.next; l = b.read.Len() }` of isSingleNode,
 on the chain suffix starting at the read node.  `none`: nil dereference. -/
@@ -186,9 +192,13 @@ def LB.peek (cfg : Cfg) (b : LB α) (n : Int) : Option (LB α × Res α) :=
         | some nd => some ({ b with nodes := b.nodes.set b.r { nd with exposed := true } }, .bytes (nd.peek n))
       | some (b, false) =>
         -- a cache that is too small is retired to `b.caches` (not freed: an earlier Peek result may use it)
-        let (b, cp) : LB α × Option (List α × Nat) := match b.cachePeek with
-          | some (c, cp) => if cp < n then ({ b with caches := b.caches + 1 }, none) else (b, some (c, cp))
-          | none => (b, none)
+        let small : Bool := match b.cachePeek with
+          | some (_, cp) => decide (cp < n)
+          | none => false
+        let cp : Option (List α × Nat) := match b.cachePeek with
+          | some (c, cp) => if cp < n then none else some (c, cp)
+          | none => none
+        let b := { b with caches := if small then b.caches + 1 else b.caches }
         let (c, cp) := match cp with
           | some x => x
           | none => ([], poolCap cfg n)
